@@ -146,7 +146,7 @@ package collection
 //@   ensures  forall(x.(*timingEntry), implies(old(allocated(x)), x.key == old(x.key) && x.delay == old(x.delay)))
 //@   ensures  forall(k.(any), implies(k != task.key && smHas(tw.timers, k), pe(tw, k) == old(pe(tw, k)) && pe(tw, k).item == old(pe(tw, k).item) && pe(tw, k).pos == old(pe(tw, k).pos)))
 //@   modifies smH[tw.timers], smV[tw.timers], smN[tw.timers], positionEntry.item, positionEntry.pos,
-//@            timingEntry.removed, timingEntry.circle, timingEntry.diff, timingEntry.value, timingEntry.baseEntry, listOf, listLen, elemOf, listFront
+//@            timingEntry.removed, timingEntry.circle, timingEntry.diff, timingEntry.value, timingEntry.baseEntry, listOf, listLen, elemOf, listFront, elemStamp, listHi, listLo
 //@   allocates
 
 //@ func (tw *TimingWheel) setTask
@@ -163,7 +163,7 @@ package collection
 //@   ensures  forall(x.(*timingEntry), implies(old(allocated(x)) && x != task && !(old(smHas(tw.timers, task.key)) && x == old(pe(tw, task.key).item)),
 //@              x.removed == old(x.removed) && x.circle == old(x.circle) && x.diff == old(x.diff) && listOf[x] == old(listOf[x]) && x.value == old(x.value)))
 //@   modifies smH[tw.timers], smV[tw.timers], smN[tw.timers], positionEntry.item, positionEntry.pos,
-//@            timingEntry.removed, timingEntry.circle, timingEntry.diff, timingEntry.value, timingEntry.baseEntry, listOf, listLen, elemOf, listFront
+//@            timingEntry.removed, timingEntry.circle, timingEntry.diff, timingEntry.value, timingEntry.baseEntry, listOf, listLen, elemOf, listFront, elemStamp, listHi, listLo
 //@   allocates
 
 // ---- the tick: scanAndRunTasks / onTick ----
@@ -205,13 +205,13 @@ package collection
 //@              listOf[x] == old(listOf[x]) && x.removed == old(x.removed) && x.circle == old(x.circle) && x.diff == old(x.diff)))
 //@   ensures  forall(x.(*timingEntry), implies(fired[x] && !old(fired[x]), old(listOf[x]) == l && !old(x.removed) && old(x.circle) <= 0 && old(x.diff) <= 0))
 //@   ensures  forall(x.(*timingEntry), implies(old(fired[x]), fired[x]))
-//@   modifies listOf, listLen, elemOf, listFront, fired, timingEntry.circle, timingEntry.diff, positionEntry.item, positionEntry.pos, smH[tw.timers], smV[tw.timers], smN[tw.timers]
+//@   modifies listOf, listLen, elemOf, listFront, elemStamp, listHi, listLo, fired, timingEntry.circle, timingEntry.diff, positionEntry.item, positionEntry.pos, smH[tw.timers], smV[tw.timers], smN[tw.timers]
 //@   allocates
 //@   call append#0: assert arg1.key == task.key && arg1.value == task.value
 //@   ghost at after append#0: fired[task] = true
 //@   ghost at before PushBack#0: lemma modshift(tw.tickedPos, task.diff, tw.numSlots)
 //@   loop 0: listiter(e, l)
-//@   loop 0: modifies listOf, listLen, elemOf, listFront, fired, timingEntry.circle, timingEntry.diff, positionEntry.item, positionEntry.pos, smH[tw.timers], smV[tw.timers], smN[tw.timers]
+//@   loop 0: modifies listOf, listLen, elemOf, listFront, elemStamp, listHi, listLo, fired, timingEntry.circle, timingEntry.diff, positionEntry.item, positionEntry.pos, smH[tw.timers], smV[tw.timers], smN[tw.timers]
 //@   loop 0: invariant wheelOK(tw) && timersOK(tw) && liveOK(tw) && itemsOK(tw)
 //@   loop 0: invariant forall(x.(*timingEntry), implies(old(listOf[x]) == l && !seen[x], listOf[x] == l && x.removed == old(x.removed) && x.circle == old(x.circle) && x.diff == old(x.diff)))
 //@   loop 0: invariant forall(x.(*timingEntry), implies(seen[x] || listOf[x] == l, old(listOf[x]) == l))
@@ -239,17 +239,17 @@ package collection
 //@   ensures  forall(x.(*timingEntry), implies(old(inWheel(tw, x)), drained(tw, x)))
 //@   ensures  forall(x.(*timingEntry), implies(!old(inWheel(tw, x)), drainCount[x] == old(drainCount[x])))
 //@   ensures  forall(k.(any), !smHas(tw.timers, k))
-//@   modifies listOf, listLen, elemOf, listFront, drainCount, smH[tw.timers], smV[tw.timers], smN[tw.timers]
+//@   modifies listOf, listLen, elemOf, listFront, elemStamp, listHi, listLo, drainCount, smH[tw.timers], smV[tw.timers], smN[tw.timers]
 //@   allocates
 //@   ghost at before Schedule#0: drainCount[task] = drainCount[task] + 1
-//@   loop 0: modifies listOf, listLen, elemOf, listFront, drainCount, smH[tw.timers], smV[tw.timers], smN[tw.timers]
+//@   loop 0: modifies listOf, listLen, elemOf, listFront, elemStamp, listHi, listLo, drainCount, smH[tw.timers], smV[tw.timers], smN[tw.timers]
 //@   loop 0: invariant wheelOK(tw)
 //@   loop 0: invariant forall(x.(*timingEntry), implies(old(inWheel(tw, x)) && slotIdx[old(listOf[x])] < idx, drained(tw, x)))
 //@   loop 0: invariant forall(x.(*timingEntry), implies(old(inWheel(tw, x)) && slotIdx[old(listOf[x])] >= idx, listOf[x] == old(listOf[x]) && drainCount[x] == old(drainCount[x])))
 //@   loop 0: invariant forall(x.(*timingEntry), implies(!old(inWheel(tw, x)), listOf[x] == old(listOf[x]) && drainCount[x] == old(drainCount[x])))
 //@   loop 0: invariant forall(k.(any), implies(smHas(tw.timers, k), old(smHas(tw.timers, k)) && pe(tw, k) == old(pe(tw, k))))
 //@   loop 1: listiter(e, slot)
-//@   loop 1: modifies listOf, listLen, elemOf, listFront, drainCount, smH[tw.timers], smV[tw.timers], smN[tw.timers]
+//@   loop 1: modifies listOf, listLen, elemOf, listFront, elemStamp, listHi, listLo, drainCount, smH[tw.timers], smV[tw.timers], smN[tw.timers]
 //@   loop 1: invariant wheelOK(tw) && 0 <= slotIdx[slot] && slotIdx[slot] < tw.numSlots && tw.slots[slotIdx[slot]] == slot
 //@   loop 1: invariant forall(x.(*timingEntry), implies(old(inWheel(tw, x)) && slotIdx[old(listOf[x])] < slotIdx[slot], drained(tw, x)))
 //@   loop 1: invariant forall(x.(*timingEntry), implies(old(listOf[x]) == slot && seen[x], drained(tw, x)))
@@ -292,7 +292,7 @@ package collection
 //@   ensures  forall(x.(*timingEntry), implies(old(inWheel(tw, x)) && !old(x.removed) && old(listOf[x]) == tw.slots[tw.tickedPos] && old(x.circle) <= 0 && old(x.diff) <= 0,
 //@              old(rem(tw, x)) == 1))
 //@   ensures  forall(x.(*timingEntry), implies(fired[x] && !old(fired[x]), old(inWheel(tw, x)) && !old(x.removed) && old(rem(tw, x)) == 1))
-//@   modifies tw.tickedPos, listOf, listLen, elemOf, listFront, fired, timingEntry.circle, timingEntry.diff, positionEntry.item, positionEntry.pos, smH[tw.timers], smV[tw.timers], smN[tw.timers]
+//@   modifies tw.tickedPos, listOf, listLen, elemOf, listFront, elemStamp, listHi, listLo, fired, timingEntry.circle, timingEntry.diff, positionEntry.item, positionEntry.pos, smH[tw.timers], smV[tw.timers], smN[tw.timers]
 //@   allocates
 //@   ghost at entry: lemma waitstep(tw.tickedPos, tw.numSlots)
 //@   ghost at before scanAndRunTasks#0: lemma modshiftAll(tw.tickedPos, tw.numSlots)
@@ -760,7 +760,7 @@ package collection
 //@ spec klOK(k *keyLru) bool = k != nil && k.elements != nil && k.evicts != nil && k.limit >= 1 && k.onEvict != nil &&
 //@      len(k.elements) == listLen[k.evicts] &&
 //@      forall(s.(string), implies(inDom(k.elements, s), k.elements[s] != nil && k.elements[s].Value == s && elemOf[k.elements[s]] == k.evicts)) &&
-//@      forall(e.(*list.Element), implies(elemOf[e] == k.evicts, inDom(k.elements, e.Value.(string)) && k.elements[e.Value.(string)] == e))
+//@      forall(e.(*list.Element), implies(elemOf[e] == k.evicts, inDom(k.elements, e.Value.(string)) && k.elements[e.Value.(string)] == e && elemStamp[e] <= listHi[k.evicts]))
 
 //@ func newKeyLru
 //@   property C16
@@ -775,6 +775,7 @@ package collection
 //@   requires klOK(klru) && e != nil && elemOf[e] == klru.evicts
 //@   ensures  klOK(klru) && !inDom(klru.elements, old(e.Value).(string)) && len(klru.elements) == old(len(klru.elements)) - 1
 //@   ensures  forall(s.(string), implies(s != old(e.Value).(string), inDom(klru.elements, s) == old(inDom(klru.elements, s))))
+//@   ensures  forall(s.(string), implies(inDom(klru.elements, s), klru.elements[s] == old(klru.elements[s])))
 //@   ensures  calls(klru.onEvict) == old(calls(klru.onEvict)) + 1
 //@   call onEvict#0: assert arg0 == old(e.Value).(string) && !inDom(klru.elements, arg0)
 //@   modifies mapof(klru.elements), listOf, listLen, elemOf, listFront, calls(klru.onEvict)
@@ -783,8 +784,11 @@ package collection
 //@   property C16
 //@   flag noheap:onEvict nopanic:onEvict
 //@   requires klOK(klru)
+//@   ghost at entry: ob = nil
+//@   ghost at after Back#0: ob = ret
+//@   ensures_local implies(ob != nil, forall(s.(string), implies(inDom(klru.elements, s), elemStamp[ob] <= elemStamp[klru.elements[s]])))
 //@   ensures  klOK(klru) && len(klru.elements) == max(0, old(len(klru.elements)) - 1)
-//@   ensures  forall(s.(string), implies(inDom(klru.elements, s), old(inDom(klru.elements, s))))
+//@   ensures  forall(s.(string), implies(inDom(klru.elements, s), old(inDom(klru.elements, s)) && klru.elements[s] == old(klru.elements[s])))
 //@   ensures  calls(klru.onEvict) == old(calls(klru.onEvict)) + ite(old(len(klru.elements)) > 0, 1, 0)
 //@   ensures  implies(old(len(klru.elements)) > 1 && old(listFront[klru.evicts]) != nil && old(elemOf[listFront[klru.evicts]]) == klru.evicts, inDom(klru.elements, old(listFront[klru.evicts].Value).(string)))
 //@   modifies mapof(klru.elements), listOf, listLen, elemOf, listFront, calls(klru.onEvict)
@@ -802,11 +806,13 @@ package collection
 //@   property C16
 //@   flag noheap:onEvict nopanic:onEvict
 //@   requires klOK(klru) && len(klru.elements) <= klru.limit
+//@   ensures  forall(s.(string), implies(s != key && inDom(klru.elements, s), elemStamp[klru.elements[s]] < elemStamp[klru.elements[key]]))
+//@   ensures  forall(s.(string), implies(s != key && inDom(klru.elements, s), klru.elements[s] == old(klru.elements[s]) && elemStamp[klru.elements[s]] == old(elemStamp[klru.elements[s]])))
 //@   ensures  klOK(klru) && inDom(klru.elements, key) && len(klru.elements) <= klru.limit
 //@   ensures  forall(s.(string), implies(s != key && inDom(klru.elements, s), old(inDom(klru.elements, s))))
 //@   ensures  implies(old(inDom(klru.elements, key)), forall(s.(string), inDom(klru.elements, s) == old(inDom(klru.elements, s))) && calls(klru.onEvict) == old(calls(klru.onEvict)))
 //@   ensures  calls(klru.onEvict) - old(calls(klru.onEvict)) == old(len(klru.elements)) + ite(old(inDom(klru.elements, key)), 0, 1) - len(klru.elements)
-//@   modifies mapof(klru.elements), listOf, listLen, elemOf, listFront, calls(klru.onEvict)
+//@   modifies mapof(klru.elements), listOf, listLen, elemOf, listFront, elemStamp, listHi, listLo, calls(klru.onEvict)
 //@   allocates
 
 // --- lru as an interface (what Cache relies on). Same clauses as keyLru's contracts above, in the interface vocabulary,
